@@ -6,6 +6,7 @@ import (
 	"time"
 
 	"github.com/filecoin-project/go-f3/gpbft"
+	"github.com/filecoin-project/go-f3/pmsg"
 	"github.com/filecoin-project/go-f3/sim/signing"
 	"github.com/filecoin-project/go-f3/zz_verif/kernel"
 )
@@ -53,6 +54,7 @@ func drawConfig(prop, tier string, c *kernel.Chooser) Config {
 	cfg.RebcastMax = cfg.RebcastBase * time.Duration(1+c.Intn(10))
 	cfg.CommitteeLookback = uint64([]int{10, 2, 3, 5}[c.Intn(4)])
 	cfg.WireCodec = true
+	cfg.PartialPath = cfg.Mode == ModeSafety && prop != "C05" && prop != "C13" && c.Chance(350)
 	cfg.CacheInstances = []int{10, 1, 2, 3}[c.Intn(4)]
 	cfg.CacheMsgs = []int{1000, 4, 64, 256}[c.Intn(4)]
 	cfg.MaxChain = c.Range(1, 6)
@@ -163,7 +165,10 @@ func drawConfig(prop, tier string, c *kernel.Chooser) Config {
 	}
 	cfg.CatchUp = c.Chance(500)
 	cfg.Restarts = c.Chance(250)
-	cfg.ByzStrategy = c.Intn(5)
+	cfg.ByzStrategy = c.Intn(6)
+	if prop == "C02" && c.Chance(300) {
+		cfg.ByzStrategy = 5
+	}
 	if cfg.Boundary && c.Chance(700) {
 		cfg.ByzStrategy = 3 + c.Intn(2)
 	}
@@ -321,7 +326,7 @@ func faultyWithinBudget(cfg *Config) bool {
 
 func newWorld(prop, tier string, c *kernel.Chooser, r *kernel.Recorder) *World {
 	w := &World{c: c, r: r, prop: prop, tier: tier, nn: "verif", ctx: context.Background(),
-		t0: time.Date(2024, 1, 1, 0, 0, 0, 0, time.UTC), sig: signing.NewFakeBackend(), roundAtGST: map[uint64]uint64{}}
+		t0: time.Date(2024, 1, 1, 0, 0, 0, 0, time.UTC), sig: signing.NewFakeBackend(), roundAtGST: map[uint64]uint64{}, pmm: new(pmsg.PartialMessageManager)}
 	w.cfg = drawConfig(prop, tier, c)
 	cfg := &w.cfg
 	// every table must keep the honest strong quorum; otherwise fall back to all-honest
